@@ -495,13 +495,23 @@ func (matrix *DenseReal32Matrix) PermuteRows(pi []int) error {
   if n != m {
     return fmt.Errorf("SymmetricPermutation(): matrix is not a square matrix")
   }
-  // permute matrix
+  if len(pi) != n {
+    return fmt.Errorf("SymmetricPermutation(): invalid permutation")
+  }
   for i := 0; i < n; i++ {
-    if pi[i] < 0 || pi[i] > n {
+    if pi[i] < 0 || pi[i] >= n {
       return fmt.Errorf("SymmetricPermutation(): invalid permutation")
     }
-    if i != pi[i] && pi[i] > i {
-      matrix.SwapRows(i, pi[i])
+  }
+  // permute matrix (row/column i of the result is row/column pi[i] of the
+  // receiver): follow every cycle of the permutation once
+  done := make([]bool, n)
+  for i := 0; i < n; i++ {
+    for j := i; !done[j]; j = pi[j] {
+      done[j] = true
+      if pi[j] != i {
+        matrix.SwapRows(j, pi[j])
+      }
     }
   }
   return nil
@@ -511,13 +521,23 @@ func (matrix *DenseReal32Matrix) PermuteColumns(pi []int) error {
   if n != m {
     return fmt.Errorf("SymmetricPermutation(): matrix is not a square matrix")
   }
-  // permute matrix
+  if len(pi) != n {
+    return fmt.Errorf("SymmetricPermutation(): invalid permutation")
+  }
   for i := 0; i < m; i++ {
-    if pi[i] < 0 || pi[i] > n {
+    if pi[i] < 0 || pi[i] >= n {
       return fmt.Errorf("SymmetricPermutation(): invalid permutation")
     }
-    if i != pi[i] && pi[i] > i {
-      matrix.SwapColumns(i, pi[i])
+  }
+  // permute matrix (row/column i of the result is row/column pi[i] of the
+  // receiver): follow every cycle of the permutation once
+  done := make([]bool, n)
+  for i := 0; i < m; i++ {
+    for j := i; !done[j]; j = pi[j] {
+      done[j] = true
+      if pi[j] != i {
+        matrix.SwapColumns(j, pi[j])
+      }
     }
   }
   return nil
